@@ -121,7 +121,7 @@ func TestCheck(t *testing.T) {
 	peer.Register()
 	r := h.Start(t, "C13")
 	defer r.Finish()
-	r.Meta("rule", "per transport {mock, tcp, unix, udp, net/http, fasthttp, ws, ws-fasthttp; fasthttp client in processes of its own} x MaxRequestLength in {0, 1, 5, 64, 1000, 4096, 65000, 65499, 65536, 100000, 2^20} x request size in {0, 1, limit/2, limit-2..limit+2, limit+30, 2*limit+7, limit+70000, 10*limit}: a real client submits a request of exactly that size (a valid call of a published function whenever the size allows) in a PRNG-drawn order over one client. Monitors: an outermost IO plugin and the published function record every request they see. Oracle: size > limit => neither saw anything and the caller's error is core.ErrRequestEntityTooLarge; size <= limit => the IO plugin saw exactly one request of that size and, for valid calls, the function ran once with the right argument. Length-declaration variants from raw peers, with the invariant 'the IO plugin never sees a request longer than the limit' and, for self-consistent frames within the limit, 'processed exactly once': tcp/unix frames declaring less or more than they carry, udp datagrams declaring less or more than they carry, http Content-Length truthful / absent (chunked) / smaller / larger than the body on both http servers, websocket messages whole and fragmented. distinct_nontrivial = distinct (transport, limit, size | variant) cells")
+	r.Meta("rule", "per transport {mock, tcp, unix, udp, net/http, fasthttp, ws, ws-fasthttp; fasthttp client in processes of its own} x MaxRequestLength in {0, 1, 5, 64, 1000, 4096, 65000, 65499, 65536, 100000, 2^20} x request size in {0, 1, limit/2, limit-2..limit+2, limit+30, 2*limit+7, limit+70000, 10*limit}: a real client submits a request of exactly that size (a valid call of a published function whenever the size allows) in a PRNG-drawn order over one client. Monitors: an outermost IO plugin and the published function record every request they see. Oracle: size > limit => neither saw anything and the caller's error is core.ErrRequestEntityTooLarge; size <= limit => the IO plugin saw exactly one request of that size and, for valid calls, the function ran once with the right argument. Length-declaration variants from raw peers, with the invariant 'the IO plugin never sees a request longer than the limit' and, for self-consistent frames within the limit, 'processed exactly once': tcp/unix frames declaring less or more than they carry, udp datagrams declaring less or more than they carry, http Content-Length truthful / absent (chunked) / smaller / larger than the body on both http servers, websocket messages whole and fragmented. distinct_nontrivial = distinct (transport, limit, size | variant) cells Round 3 additions: the limit lowered on a live connection; GET requests with a body over the limit.")
 	r.Meta("assumptions", []string{
 		"limits up to 2^20 and sizes up to limit+70000 / 10*limit",
 		"udp: a request that no datagram can carry (over 65499 bytes) is refused by the client itself with the same error",
